@@ -217,7 +217,7 @@ def run(ctx: lib.Ctx) -> None:
 
     eval_error = None
     try:
-        bad = ctx.coq_mismatches('view', IMPORTS, 'chk', 'Bool.eqb', 'bytes * node', 'bool', cases, prelude=PRELUDE, shard=ctx.n(150, 400))
+        bad = ctx.coq_mismatches('view', IMPORTS, 'chk', 'Bool.eqb', 'bytes * node', 'bool', cases, prelude=PRELUDE, shard=max(150, min(600, -(-len(cases) // lib.n_jobs()))))
     except lib.InternalError as e:   # never crash on what a modified implementation produced
         bad, eval_error = [], str(e)[-1500:]
     ctx.extra['cases'] = len(cases)
